@@ -25,11 +25,11 @@ CLAIMS = {
    technique='own VC generator over the extracted expression text + SMT (QF_NRA) on three solvers'),
  'C03': dict(level='proof', design='6 C03',
    text='Contracts (requires/ensures/assigns/frees) on the real bodies of String::resize, append, assign, concat, substring, substr, '
-        'operator+=(char), String(const char*,int), copy constructor, String(int), String(Long), lastIndexOf, the retry loop of String::f over a C99 vsnprintf contract (+ alloc/init/str/String(cap,n) inlined), '
+        'operator+=(char), String(const char*,int), copy constructor, String(int), String(Long), lastIndexOf, the retry loops of String::f and String(int n, fmt, ...) over a C99 vsnprintf contract, one turn of the split(sep)/replace(a,b) scanning loops over the strstr contract (pieces tile the text, strict progress for non-empty patterns), trim()/trimmed() on every inline string (+ alloc/init/str/String(cap,n) inlined), '
         'cut from /repo on every run and discharged by CBMC for all strings up to 100000 bytes: representation invariant (length = offset '
         'of NUL, capacity > length), byte-string model via a ghost index, frames, frees. Aliasing variants (source inside the string) are '
         'proved for the inline buffer and bounded by capacity for heap buffers.',
-   note=TB + 'Not decided: split/join/replace/trim as sequence functions, search other than lastIndexOf (strstr/strchr are libc contracts), what printf itself formats (only the buffer/length handling of String::f is decided; the String(int n, fmt, ...) constructor loop is not), float text, '
+   note=TB + 'Not decided: join, split() on white space, trim on heap strings (same-object memmove of symbolic size), split/replace as whole sequences (the turn units + an induction on paper), search other than lastIndexOf (strstr/strchr are libc contracts), what printf itself formats (only the buffer/length handling of String::f and String(int n, fmt, ...) is decided), float text, '
         'integer value round trip (SAT does not finish on divide/multiply chains; only canonical decimal form and capacity are proved), unsigned/ULong constructors (snprintf).',
    technique='CBMC code contracts (DFCC) on extracted function bodies, ghost-index postconditions'),
  'C04': dict(level='other', design='6 C04',
